@@ -65,7 +65,8 @@ RULE = (
 )
 ASSUMPTIONS = [
     "per-class facts (_get_type_boolability, enum member counts, KNOWN_MUTABLE_TYPES) enter the model through Generated/NarrowTables.lean, class-level assignability through Generated/ClassTable.lean (both regenerated every run)",
-    "assignability inside IsAssignablePredicate / EqualsPredicate / InPredicate is the shared model `ca` (Core/Assign.lean), tied to the code by the C03/C04 correspondence; protocol targets in the value-dependent region are searched on the implementation but not compared with the model",
+    "assignability inside IsAssignablePredicate / EqualsPredicate / InPredicate is the shared model `ca` (Core/Assign.lean), tied to the code by the C03/C04 correspondence; protocol targets in the value-dependent region (generic protocol vs Enum class / literal enum member / class object / type[...] / metaclass, also between the tested types of a conjunction) are searched on the implementation but not compared with the model; an object lost there is classified on the implementation with pyanalyze's own is_overlapping / is_assignable",
+    "Enum class objects against generic ABC targets (Iterable[T], Collection[T], ...) are outside the oracle: the object universe has no element structure for them (like str/bytes objects)",
     "TypeIs/TypeGuard functions are trusted to return `o in T`; `is` is compared only with singletons (None, bools, enum members, classes)",
     "id()-based simplifications of AndConstraint.make / OrConstraint.make are not modelled (the harness never reuses a constraint object); union member order and duplicate members are not compared (C10 / C14)",
     "match sequence/mapping patterns, comparison predicates on the variable itself (x < 3: metadata only) and constraints on attributes/subscripts are outside the model",
@@ -525,13 +526,58 @@ def std_conds():
     return out
 
 
+ENUM_CLASSES = {27, 28, 29, 30}   # Color, IE, Enum, IntEnum (as in harness.props.c04.ENUMS)
+META_CLASSES = {13, 31, 32}       # type, EnumType, ABCMeta
+
+
+def _deliteral_term(t):
+    """`_deliteral` on terms: a literal enum member stands for its class, a literal class object for its metaclass
+    (is_overlapping / the protocol check see the literal that way)"""
+    k = t[0]
+    if k == "known":
+        o = t[1]
+        if o[0] == "inst":
+            return ("typed", o[1])
+        if o[0] == "cls":
+            return ("subclass", o[1])
+        return t
+    if k in ("generic", "seq"):
+        return (k, t[1], [_deliteral_term(x) for x in t[2]])
+    if k == "union":
+        return ("union", [_deliteral_term(x) for x in t[1]])
+    if k in ("many", "annotated"):
+        return (k, _deliteral_term(t[1]))
+    return t
+
+
+def _proto_region(e, a, P):
+    """generic protocol target in `e` against an Enum class, a class object, type[...] or a metaclass in `a`:
+    pyanalyze decides these on the value (member signatures of the metaclass), not on the class-level relation"""
+    e_proto_generic = any(s[0] == "generic" and s[1] in P for s in subterms(e))
+    e_proto = e_proto_generic or any(s[0] == "typed" and s[1] in P for s in subterms(e))
+    a_enum = any((s[0] in ("typed", "generic", "seq") and s[1] in ENUM_CLASSES) or (s[0] == "newtype" and s[2] in ENUM_CLASSES)
+                 for s in subterms(a))
+    a_cls = any(s[0] == "subclass" or (s[0] in ("typed", "generic") and s[1] in META_CLASSES) for s in subterms(a))
+    return (e_proto_generic and (a_enum or a_cls)) or (e_proto and a_cls)
+
+
 def unmodelled(Vt, c):
-    """value-dependent protocol region of the shared assignability model (see C04): not compared with the model"""
+    """value-dependent protocol region of the shared assignability model (see C04): searched on the implementation, not
+    compared with the model. Since /repo e01ac16 (protocol cache keyed on the protocol's arguments) every such question is
+    answered from the value, so the region covers literal enum members / class objects (seen through `_deliteral`) too."""
     from harness.props.c04 import unmodelled as um04, proto_set
     P = proto_set()
-    for l in leaves(c):
+    Vd = _deliteral_term(Vt)
+    ls = leaves(c)
+    if len(ls) > 1:
+        # in a conjunction a constraint is applied to the pattern an earlier one returned: tested types meet each other
+        tds = [_deliteral_term(tested_ty(l)) for l in ls]
+        if any(_proto_region(a, b, P) or um04(a, b) for a in tds for b in tds if a is not b):
+            return True
+    for l in ls:
         t = tested_ty(l)
-        if um04(t, Vt) or um04(Vt, t):
+        td = _deliteral_term(t)
+        if um04(t, Vt) or um04(Vt, t) or _proto_region(td, Vd, P) or _proto_region(Vd, td, P):
             return True
         # literals of protocol-typed members: class objects against protocol targets (C03 protoClassObj region)
         if l[0] in ("eq", "ne", "is", "isnot", "in", "notin", "ais", "typeis", "typeguard"):
@@ -539,6 +585,39 @@ def unmodelled(Vt, c):
             if any(x[0] == "cls" for o in lits for x in subobjs(o)) and any(s[0] in ("typed", "generic") and s[1] in P for s in subterms(Vt)):
                 return True
     return False
+
+
+def enum_class_silent(t, o):
+    """An Enum *class object* is a sized iterable container through its metaclass; `Obj` has no element structure for it, so
+    its membership in a *generic* ABC target (Iterable[T], Collection[T], ...) is not defined by the property (as for
+    str/bytes objects, c03.property_silent)."""
+    if not any(x[0] == "cls" and x[1] in ENUM_CLASSES for x in subobjs(o)):
+        return False
+    return any(s[0] == "generic" and s[1] in ABCS_ for s in subterms(t))
+
+
+def impl_class(Vt, c, pol, py, checker):
+    """Classification of a lost object *on the implementation* for the protocol region, where the table-driven model does not
+    apply: the same two mechanisms as the Lean classes, evaluated with pyanalyze's own predicates on the union member that
+    contains the object. None = no such mechanism (the candidate is then reported as new)."""
+    from pyanalyze.value import flatten_values, is_overlapping
+    for l in leaves(c):
+        if l[0] not in ("isinst", "issub", "typeis", "mclass"):
+            continue
+        pat = build_constraint(l, checker).value.pattern_value
+        tst = tested_ty(l)
+        for m in flatten_values(V.ty_to_value(Vt)):
+            try:
+                mt = V.value_to_ty(m)
+            except V.Unencodable:
+                continue
+            if not G.member(py, mt):
+                continue
+            if not is_overlapping(pat, m, checker):
+                return "noIntersection"
+            if pat.is_assignable(m, checker) and l[0] != "mclass":
+                return "promote" if G.member(py, tst) else "acceptsNonMember"
+    return None
 
 
 def gen_triples(ctx):
@@ -699,7 +778,9 @@ def evaluate(ctx, triples, with_model=True, replaying=False):
         sil = silent_vec(Vt) or silent_vec(res[0]) or silent_vec(res[1]) or silent_vec(tst)
         for n, (o, py) in enumerate(objs):
             small = n < nsmall
-            if sil and (property_silent(Vt, o) or property_silent(res[0], o) or property_silent(res[1], o) or property_silent(tst, o)):
+            if sil and (property_silent(Vt, o) or property_silent(res[0], o) or property_silent(res[1], o) or property_silent(tst, o)
+                        or enum_class_silent(Vt, o) or enum_class_silent(res[0], o) or enum_class_silent(res[1], o)
+                        or enum_class_silent(tst, o)):
                 continue
             inV = vV[n] if small else G.member(py, Vt)
             in1 = v1[n] if small else G.member(py, res[0])
@@ -764,9 +845,13 @@ def evaluate(ctx, triples, with_model=True, replaying=False):
             cls = live_cls(d.split(","))
             model_lost = bits[3] == "0"
         if model_lost is False and unmodelled(triples[i][0], triples[i][1]):
-            # value-dependent protocol region (see ASSUMPTIONS): the table-driven assignability model does not apply, the
-            # failing input cannot be classified against it; counted, not reported
-            ctx.tag("keeps_unclassified_protocol_region")
+            # value-dependent protocol region (see ASSUMPTIONS): the table-driven model does not lose the object, so the
+            # failing input is classified on the implementation itself (same mechanisms, pyanalyze's own predicates)
+            icls = impl_class(triples[i][0], triples[i][1], pol, py, checker)
+            ctx.tag("keeps_protocol_region_%s" % icls)
+            ctx.candidate(dict(case, polarity=pol, object=repr(py), obj=o, driver=l, classified="on the implementation"),
+                          "the object belongs to the declared type and the condition evaluates to %s for it, but it does not belong "
+                          "to the type inferred in that branch (protocol region)" % bool(pol), cls=icls, conforms=True, stream="keeps")
             continue
         ctx.candidate(dict(case, polarity=pol, object=repr(py), obj=o, driver=l),
                       "the object belongs to the declared type and the condition evaluates to %s for it, but it does not belong to the "
@@ -996,6 +1081,8 @@ def e2e(ctx, triples, impl, model, checker, with_model):
         for o, py in objects_for(ctx.rng, Vd, c, 2):
             if property_silent(Vd, o) or property_silent(dec[1], o) or property_silent(dec[2], o) or cross(o, Vd, c):
                 continue
+            if enum_class_silent(Vd, o) or enum_class_silent(dec[1], o) or enum_class_silent(dec[2], o):
+                continue
             if not G.member(py, Vd):
                 continue
             try:
@@ -1015,7 +1102,11 @@ def e2e(ctx, triples, impl, model, checker, with_model):
         if " D=" in l:
             cls = live_cls(l.split(" D=")[1].split(","))
             if l[3] == "1" and unmodelled(case["V"], c):
-                ctx.tag("keeps_unclassified_protocol_region")
+                icls = impl_class(case["V"], c, pol, py, checker)
+                ctx.tag("keeps_protocol_region_%s" % icls)
+                ctx.candidate(dict(case, polarity=pol, object=repr(py), obj=o, driver=l, classified="on the implementation"),
+                              "end to end: object lost in the branch taken (protocol region)", cls=icls, conforms=True,
+                              stream="e2e-keeps")
                 continue
         ctx.candidate(dict(case, polarity=pol, object=repr(py), obj=o, driver=l,
                            program="def f(x: %s):\n    if %s: reveal_type(x)\n    else: reveal_type(x)" % (case["type"], text)),
